@@ -50,12 +50,26 @@ CHECKS = {
         "Lexer-level token-recognition errors (tab, NUL, non-ASCII) are outside the parser's report and only judged for totality; item count for damaged-but-accepted pages uses a line-shape rule.",
         "§4 C08",
     ),
+    "C09": (
+        "exploration",
+        "exhaustive enumeration of (select, grouping list, ordering list, filter) on real indexes; output parsed back and judged by partition/ordering laws + differential count oracle",
+        "On two indexes built by the real db create, every select form (also under count()), every grouping list in the tier's set, every ordering list in the tier's set and three filters are executed by the real executor; the rendered text is parsed into groups and checked: each matching note exactly once with its exact text, header chain = its value per dimension, sibling groups sorted/distinct, adjacent notes ordered by the keys (none = path then numeric line), selections = distinct values of the group (sorted under alpha), count(x) = entries of S x for the same group (differential, two real executions).",
+        "Two designed corpora; order between a todo and a plain note under `priority` is not judged; matching set from the model over raw rows.",
+        "§4 C09",
+    ),
     "C12": (
         "exploration",
         "exhaustive small-scope enumeration of notes with a differential round-trip oracle (compile -> emit -> compile) on the real code",
         "Every note of the enumerated single-item family (16 kind/priority forms x 4 identity forms x 1..2 words over 14 words x up to 5 tails) and every ordered pair of the reduced item alphabet is compiled, emitted by the real Note.to_string(), wrapped in a page header, compiled again and compared (kind, ZID, body, own tags/links/properties, dates iff ZID, priority unless done/cancelled); ungrouped S note renderings of a real index under every ordering key list are compiled back and must contain exactly the selected notes in order, also through a refreshed .zoq page.",
         "The first compilation is only the reference for the second (C01 judges it against the written page); index corpus fixed per seed.",
         "§4 C12",
+    ),
+    "C15": (
+        "exploration",
+        "exhaustive enumeration of acyclic saved-query sets x referencing queries on a real index, judged by substitution-as-sub-expression in the set-algebra model",
+        "Every acyclic assignment of 7 reference-free and 3 referencing clause forms to three saved-query names (910 sets, written with three S/O/G wrapper styles) times 10 referencing query forms is expanded by the real expand_saved_queries and executed by the real repository on an index built by db create; the selected ZIDs (or the count) must equal the model's evaluation with every reference substituted as a sub-expression; the expansion must be well-formed and reference-free; 5 queries naming a missing saved query must make expansion fail and execute raise.",
+        "Acyclic sets only; one designed corpus; saved pages without a W clause are not explored.",
+        "§4 C15",
     ),
     "C18": (
         "exploration",
